@@ -75,7 +75,7 @@ void check_decoded(Ctx& c, const TypeEntry& te, const SDCompact::Data& d, uint64
 
 // ------------------------------------------------------------------------------------------------
 void run_roundtrip(Ctx& c, const std::vector<TypeEntry>& types, size_t cap) {
-  refv::Domains dom; dom["*"] = { 1, 2 };
+  refv::Domains dom; dom["*"] = { 1, 2 }; dom["Z"] = { -3, 2 };   // integer-typed cells legitimately hold negative numbers
   for (const auto& te : types) {
     if (c.stop()) return;
     bool complete = true;
@@ -225,7 +225,7 @@ int main(int argc, char** argv) {
   if (opt.mode == "roundtrip") {
     const size_t cap = static_cast<size_t>(opt.num("cap", opt.thorough() ? 65536 : 4096));
     res.rep = run_sharded(opt, "roundtrip", [&](Ctx& c) { run_roundtrip(c, types, cap); }, &ri);
-    res.alphabet = std::to_string(types.size()) + " typifications (<= " + std::to_string(maxNodes) + " nodes, arity <= " + std::to_string(arity) + ", bases X1 and Z); element ids {1,2}";
+    res.alphabet = std::to_string(types.size()) + " typifications (<= " + std::to_string(maxNodes) + " nodes, arity <= " + std::to_string(arity) + ", bases X1 and Z); element ids {1,2}, integers {-3,2}";
     res.completed_bound = "all compatible values over {1,2}; a set level with more than " + std::to_string(cap) + " values is cut to the first and last " + std::to_string(cap / 2) + " in size-then-lexicographic order (first " + std::to_string(cap) + " when the element universe exceeds 64)";
     res.rule = "case = (typification, value); each value packed from its enumerated and from its alternative (lazy Boolean/Decartian, reversed, duplicated) representation, unpacked through both Unpack entry points; compared by model value, by the library's ==, and deep compatibility; non-trivial = contains an empty set below the top level, is a tuple, or has >= 2 elements";
   } else if (opt.mode == "malformed") {
